@@ -142,3 +142,36 @@ func (m *MonC10) OnEvent(w *World, rec *StepRec) []*Violation {
 }
 
 var _ = refmodel.AddVoter
+
+// AutoLeaveEndCheck is evaluated on the quiescent end state of a scripted
+// execution (C10: a leader leaves an auto-leave joint configuration by itself once
+// it has applied it). Nothing is pending, nothing is cut off: a leader that still
+// sits in a joint auto-leave configuration with everything applied has not
+// proposed the leave.
+func AutoLeaveEndCheck(w *World) []*Violation {
+	if w.Dead {
+		return nil
+	}
+	for i := range w.Blocked {
+		for j := range w.Blocked[i] {
+			if w.Blocked[i][j] {
+				return nil
+			}
+		}
+	}
+	for _, n := range w.Nodes {
+		if n.Stopped || n.ApplyPaused || n.AppendPaused || n.ReadyPaused {
+			return nil
+		}
+	}
+	for _, n := range w.Nodes {
+		vs := n.vs()
+		if vs.State != raft.StateLeader || len(vs.Voters[1]) == 0 || !vs.AutoLeave {
+			continue
+		}
+		if vs.Applied == vs.Committed && vs.Committed == vs.LastIndex && vs.LeadTransferee == 0 {
+			return []*Violation{{"C10", "auto-leave", fmt.Sprintf("leader %d has applied everything (index %d) but still sits in the joint auto-leave configuration %v without having proposed to leave it", n.ID, vs.Applied, vs.Voters)}}
+		}
+	}
+	return nil
+}
